@@ -10,8 +10,9 @@ from vlib.common import Shard, describe_exc, rng, run_shards
 PROTOCOL_VERBS = ("AVERS", "CURCH", "SFILE", "STATU", "STATQ", "GETWC", "SETWC", "REQRM", "UPDTS", "REQWC")
 
 
-def judge(sh, kind, dgrams):
-    """dgrams: list of (verb, data)"""
+def judge(sh, kind, dgrams, chain=None):
+    """dgrams: list of (verb, data); chain: name of the connection when the datagrams are ALL the
+    sequence-bearing datagrams of one fault-free connection (successor clause judged on the wire)"""
     seen = {"command": [], "protocol": []}
     for verb, data in dgrams:
         i = data.find(b"<DATAS>") + 7
@@ -28,6 +29,17 @@ def judge(sh, kind, dgrams):
             if not (1 <= seq <= 191):
                 sh.violation(f"C16:wire:{kind}:{verb}", f"{kind} client: {verb} on the wire with sequence {seq} (protocol range is 1..191)", {"datagram": data[i : i + 16]})
             sh.see(f"wire_verbs_{kind}", verb)
+    if chain:
+        # one connection, fault-free: every number handed out goes onto the wire, so each datagram of a
+        # kind carries the successor of the previous one, starting at the cycle's first value
+        for k, first, succ in (("protocol", 1, lambda a: a % 191 + 1), ("command", 192, lambda a: (a - 191) % 64 + 192)):
+            lst = seen[k]
+            if lst and lst[0] != first:
+                sh.violation(f"C16:wire:{kind}:first-{k}", f"{kind} client ({chain}): the first {k} number of the connection on the wire is {lst[0]}, the cycle starts at {first}", {"first_numbers": lst[:6]})
+            bad = [(a, b) for a, b in zip(lst, lst[1:]) if b != succ(a)]
+            if bad:
+                sh.violation(f"C16:wire:{kind}:successor-{k}", f"{kind} client ({chain}): {k} numbers on the wire {bad[:4]} are not successors ({len(bad)} of {len(lst)})", {"pairs": bad[:8]})
+            sh.counters[f"wire_{kind}_{k}_successor_pairs"] = sh.counters.get(f"wire_{kind}_{k}_successor_pairs", 0) + max(0, len(lst) - 1)
     for k, lst in seen.items():
         wraps = sum(1 for a, b in zip(lst, lst[1:]) if b < a)
         sh.counters[f"wire_{kind}_{k}_datagrams"] = sh.counters.get(f"wire_{kind}_{k}_datagrams", 0) + len(lst)
@@ -53,6 +65,9 @@ def shard_async(sh: Shard, seed):
             facade = GeckoAsyncFacade(spa, rig.taskman)
             await asyncio.wait_for(facade.wait_for_one_update(), 300)
             for i in range(210):
+                if i in (5, 77):
+                    rig.protocol.error_received(ConnectionRefusedError(111, "Connection refused"))
+                    sh.count("error_received_events")
                 await spa.async_get_watercare()
                 if i % 3 == 0:
                     await spa.async_get_reminders()
@@ -67,13 +82,34 @@ def shard_async(sh: Shard, seed):
                 await spa.async_press(1 + i % 3)
             await asyncio.sleep(130)  # a periodic refresh + channel query
             await facade.disconnect()
+            await rig.close()
+            await asyncio.sleep(1)
+            sh.count("first_connection_endpoint_closed_before_the_second", 1 if rig.transport is None or rig.transport.closed else 0)
+            # a second connection of the same process, made after the first one is gone (no discovery
+            # in between), to another spa: its numbering is its own
+            rig2 = SpaRig(w, snapshot="default.snapshot", sim_cls=make_model_class(), addr=("10.0.0.2", 10022))
+            if not await rig2.connect(background=True):
+                sh.count("second_connection_failed")
+                return
+            for i in range(12):
+                await rig2.spa.async_get_watercare()
+                if i == 3:
+                    # the OS reports a refused datagram (ICMP) - asyncio tells the protocol object
+                    rig2.protocol.error_received(ConnectionRefusedError(111, "Connection refused"))
+                    sh.count("error_received_events")
+                await rig2.spa.async_press(1 + i % 3)
+            await rig2.close()
+            sh.count("second_connections")
 
         try:
             w.run(main())
         except (ScenarioHang, Watchdog) as e:
             sh.inconc(type(e).__name__)
             return
-        judge(sh, "async", [(d.verb, d.data) for d in w.net.dgrams if d.dir == "c2s"])
+        judge(sh, "async", [(d.verb, d.data) for d in w.net.dgrams if d.dir == "c2s" and d.dst == ("10.0.0.1", 10022)], chain="first connection")
+        second = [(d.verb, d.data) for d in w.net.dgrams if d.dir == "c2s" and d.dst == ("10.0.0.2", 10022)]
+        if second:
+            judge(sh, "async", second, chain="second connection of the process")
         sh.nontrivial("wire:async")
     except Exception as e:
         d = describe_exc(e)
@@ -133,6 +169,8 @@ def add(run, tier, seed):
     res = run_shards("checks.c16_wire", "shard_async", [{"seed": seed * 10 + i} for i in range(n)], timeout=1500)
     res += run_shards("checks.c16_wire", "shard_threaded", [{"seed": seed * 10 + i} for i in range(n)], timeout=1500)
     run.absorb(res)
+    run.need(run.counters.get("second_connections", 0) >= 1 and run.counters.get("error_received_events", 0) >= 2, "wire: no second connection in one process / no OS error reported to a connection")
+    run.need(run.counters.get("wire_async_protocol_successor_pairs", 0) > 200, "wire: successor clause hardly judged on the wire")
     for kind in ("async", "threaded"):
         for k in ("command", "protocol"):
             run.need(run.counters.get(f"wire_{kind}_{k}_wraps", 0) >= 1, f"wire: the {kind} client's {k} counter never wrapped on the wire ({run.counters.get(f'wire_{kind}_{k}_datagrams', 0)} datagrams)")
